@@ -11,6 +11,13 @@ E = ref6455.encode_frame
 def base_streams(rnd, n):
     """(label, frame bytes after the handshake, handshake bytes, app)"""
     out = []
+    # always present: terminated header blocks whose total size sits on the 16 KiB limit (every cut position around their
+    # end is tried below)
+    for target in (16382, 16383, 16384, 16385):
+        hs = scen.HANDSHAKE
+        pad = target - len(hs) - len(b"X-Pad: \r\n")
+        hs = hs[:-2] + b"X-Pad: " + b"p" * pad + b"\r\n\r\n"
+        out.append(("bighdr", hs, E(1, b"after the header"), {}, None))
     for i in range(n):
         kind = rnd.choice(["valid", "valid", "invalid", "appclose", "appsend", "bighdr"])
         hs = scen.HANDSHAKE
